@@ -24,7 +24,7 @@ func Main() {
 				DepthQ:      4,
 				DepthT:      5,
 				Unmerged:    2,
-				CrashBudget: 2,
+				CrashBudget: 1,
 				Assumptions: []string{"renames of a directory into its own subtree are not part of this alphabet (they never return; decided by C18)"},
 			})
 		})
